@@ -69,7 +69,7 @@ def backward_euler(dae: nDAE,
                  lambda y_, p_: dae.M - dt * dae.J(t0 + dt, y_, p_),
                  p)
 
-        sol = nr_method(ae, y0, Opt(stats=True))
+        sol = nr_method(ae, y0, Opt(stats=True, ite_tol=opt.ite_tol))
         y1 = sol.y
         stats.ndecomp = stats.ndecomp + sol.stats.nstep
         stats.nfeval = stats.nfeval + sol.stats.nstep
